@@ -634,9 +634,9 @@ class Rmcp(object):
                         received = rx_filter(header, rx_data,
                                              rq_seq=not self.ignore_rq_seq)
 
-                        if not received:
-                            self._q.put(rx_data)
-
+                        # a frame that does not answer this request is
+                        # dropped (re-queueing it made it being re-read instead
+                        # of the socket, by this and by every later request)
                         received_retry += 1
 
                     if not received:
